@@ -22,6 +22,8 @@ import warnings
 
 ID = "C06"
 LEVEL = "exploration"
+SUITE_UNDER_MONITORS = True  # thorough tier: the unedited repository tests run with this property's contracts loaded
+SUITE_CONTRACTS = ("datalist_key",)
 CONTRACTS = ("datalist_key", "record_decode")
 REACH = {"DataLists.add_table": "DataLists.add_table", "DataLists.lookup_value": "DataLists.lookup_value", "_NumbersModel.row_storage_map": "row_storage_map",
          "get_storage_buffers_for_row": "get_storage_buffers_for_row", "_NumbersModel.storage_buffer": "storage_buffer", "IWork._read_objects_from_package": "_read_objects_from_package",
